@@ -62,6 +62,9 @@ structure State where
   dname : GName              -- identifier of the default context
   ns : List Nat              -- namespaces that have a prefix in the store's prefix tables
                              -- (`NamespaceManager.bind` → `store.bind`); OUTSIDE the property's statement
+  dgBase : Option Nat        -- `default_context.base` (`Dataset(default_graph_base=…)`): an ATTRIBUTE of the object
+                             -- being read; `Dataset.graph(id)` does `g.base = base` on the NEW Graph object
+                             -- `_graph(id)` returns, never on the dataset's own default graph — no read touches it
   deriving DecidableEq, Repr
 
 /-! ### store writes (the only ways the model changes a `State`): `add`, `register` on the quad side,
@@ -117,7 +120,7 @@ def unionInto (acc : List Triple) : List Triple → List Triple
   | t :: ts => unionInto (sinsert acc t) ts
 
 /-- an empty scratch `Dataset()` with its own store (QueryContext.__init__ with a dataset clause, patch `_diff`) -/
-def emptyDataset : State := ⟨[], [], false, true, .dflt, []⟩
+def emptyDataset : State := ⟨[], [], false, true, .dflt, [], none⟩
 
 /-- what `top.triples((None, None, None))` iterates: the union, or the default graph -/
 def State.visible (s : State) : List Triple :=
